@@ -24,7 +24,8 @@ from radicale.storage.multifilesystem import upload as mfs_upload
 
 REAL_VERSION = rstorage.CACHE_VERSION
 VERS = [REAL_VERSION, b"radicale=9.9.9;vobject=0.0.0;"]
-LOGICAL_MAX = 10 ** 15          # real st_mtime_ns are ~1.7e18
+LOGICAL_BASE = 10 ** 18         # logical mtimes: 10**18 + small (September 2001); real st_mtime_ns are > 1.7e18,
+LOGICAL_MAX = LOGICAL_BASE + 10 ** 12   # so float seconds cannot tell t from t+1 ns (a key built from st_mtime would be too coarse)
 
 CUR = [None]                    # the active harness (one per process)
 
@@ -302,7 +303,7 @@ class Run:
         install()
         self.d = dic
         self.label = label
-        self.clock = 10000
+        self.clock = LOGICAL_BASE
         self.tracing = False
         self.acts, self.obs = [], []
         self.objs = 0
@@ -346,7 +347,7 @@ class Run:
             st = os.stat(path)
         except OSError:
             return
-        if st.st_mtime_ns >= LOGICAL_MAX:
+        if not (LOGICAL_BASE <= st.st_mtime_ns < LOGICAL_MAX):
             t = self.tick()
             os.utime(path, ns=(t, t))
 
@@ -937,7 +938,7 @@ def check_multistatus(run, d, r, failures):
 GARBAGE = [b"garbage, not a pickle", pickle.dumps(()), pickle.dumps(("",) + (1,) * 7), pickle.dumps([])]
 
 
-def manipulate(run, rng, pool, counts):
+def manipulate(run, rng, pool, counts, nxt=None):
     """Between two requests of run B: do 1-3 things to the cache / the configuration."""
     for _ in range(rng.choice([1, 1, 2, 3])):
         ents = run.entries()
@@ -991,7 +992,12 @@ def manipulate(run, rng, pool, counts):
             for cp in COLLS:
                 folder = os.path.join(run.root, cp)
                 if os.path.isdir(folder):
-                    cands += [(cp, n) for n in os.listdir(folder) if is_item_name(n) and os.path.isfile(os.path.join(folder, n))]
+                    cands += [(cp, n) for n in sorted(os.listdir(folder))
+                              if is_item_name(n) and os.path.isfile(os.path.join(folder, n))]
+            # prefer an item the next request is going to read under the shared lock
+            if nxt and nxt[0] in ("get", "propfind", "multiget", "query", "getcoll"):
+                near = [x for x in cands if x[0] == nxt[1] and (nxt[0] != "get" or x[1] == nxt[2])]
+                cands = near or cands
             if not cands:
                 continue
             cp, n = rng.choice(cands)
@@ -1046,7 +1052,7 @@ def run_pair(seed, length, keep_acts=True):
         try:
             for i, d in enumerate(hist):
                 if label == "B" and i >= 4 and rb.random() < 0.6:
-                    manipulate(run, rb, pool, counts)
+                    manipulate(run, rb, pool, counts, d)
                 itf = run.interfere
                 # run.request() clears the interference; keep it alive for this request only
                 r = perform_with_interference(run, d, fails, itf)
